@@ -19,7 +19,9 @@ CLAIM = {
             "function (staged copies, fresh objects) are not state. (R10.2) Handler::with_persist returns Err only "
             "after testing that no mutation is pending. Every remaining (site, exit) pair is either a one-line reasoned "
             "exception (infeasible pair) or a listed known finding. (R10.3) the chain tracker counts too: in add_block / remove_block every mutation of the tracked state comes after the last check that can refuse (same rule as C13 R13.1). Does not decide equality of serialized state "
-            "(runtime values) nor effects inside dependency crates.",
+            "(runtime values) nor effects inside dependency crates. (R10.4) the protocol layer composes core calls: in every "
+            "function and closure of vls-protocol-signer (request handlers, approver front end) no call that changes "
+            "monitored state is followed by a refusal of the same request other than that call's own failure.",
     "note": "non-permissive policy; CHA for dyn calls; storage failures (Persist::*, Channel::persist) are not refusals",
     "technique": "static analysis: effect/mutation summaries over MIR + CFG reachability to refusal exits (failure atomicity)",
 }
@@ -90,6 +92,7 @@ def run(ctx):
     r101(ctx)
     r102(ctx)
     r103(ctx)
+    r104(ctx)
 
 
 def site_tag(desc):
@@ -176,3 +179,101 @@ def r103(ctx):
     # the chain tracker is part of "the state a refused request must leave as it was": same rule as C13 R13.1
     from rules import C13
     C13.r131(ctx, rid="R10.3")
+
+
+# ---------------------------------------------------------------------------- R10.4 protocol layer
+PS = "vls_protocol_signer::"
+CH_DO = "<vls_protocol_signer::handler::ChannelHandler as vls_protocol_signer::handler::Handler>::do_handle"
+RT_DO = "<vls_protocol_signer::handler::RootHandler as vls_protocol_signer::handler::Handler>::do_handle"
+_VALIDATE_THEN_POINT = (
+    "the validation stores the staged commitment only for commit_num == next_holder_commit_num (C01 R1.6); for that "
+    "number get_per_commitment_point(commit_num + 1) is within its bound (n <= next + 1), so it cannot refuse after a "
+    "validation that changed something")
+_VALIDATE_THEN_ACTIVATE = (
+    "reached for commit_num == 0 only: if next_holder_commit_num != 0 the validation of number 0 staged nothing (retry "
+    "of the current commitment or refused as revoked); if it is 0 the validation has just staged the commitment and "
+    "activate_initial_commitment finds it, so it cannot refuse after a validation that changed something")
+_REVOKE_THEN_NONE = (
+    "RevokeCommitmentTx asks for new_current = commit_num + 1 >= 1; the advancing path of "
+    "revoke_previous_holder_commitment returns the secret of new_current - 1 (Some), and the non-advancing paths "
+    "change nothing, so `no old secret` cannot follow a state change (non-permissive policy)")
+EXCEPTIONS4 = {
+    # (enclosing function, callee that changed state, cause of the later refusal) -> reason (infeasible pair, read)
+    ("ChannelHandler::do_handle", "validate_holder_commitment_tx", "call:get_per_commitment_point"): _VALIDATE_THEN_POINT,
+    ("ChannelHandler::do_handle", "validate_holder_commitment_tx_phase2", "call:get_per_commitment_point"): _VALIDATE_THEN_POINT,
+    ("ChannelHandler::do_handle", "validate_holder_commitment_tx", "call:activate_initial_commitment"): _VALIDATE_THEN_ACTIVATE,
+    ("ChannelHandler::do_handle", "validate_holder_commitment_tx_phase2", "call:activate_initial_commitment"): _VALIDATE_THEN_ACTIVATE,
+    ("ChannelHandler::do_handle", "revoke_previous_holder_commitment", "call:map"): _REVOKE_THEN_NONE,
+    ("ChannelHandler::do_handle", "revoke_previous_holder_commitment", "explicit"): _REVOKE_THEN_NONE,
+    ("RootHandler::sign_withdrawal", "handle_proposed_onchain", "explicit"):
+        "`approved == false` is returned by handle_proposed_onchain only on the UnknownDestinations arm, i.e. when "
+        "check_onchain_tx was refused by validate_onchain_tx before it counted anything",
+    ("RootHandler::sign_withdrawal", "handle_proposed_onchain", "call:unchecked_sign_onchain_tx"):
+        "unchecked_sign_onchain_tx refuses only in get_wallet_privkey (derivation path of the wrong length) or with an "
+        "internal sighash error for an in-range input index; sign_withdrawal builds every non-empty input path with "
+        "exactly one element (to_derivation_path(&[keyindex])), the wallet path length of the native derivation style "
+        "this handler serves, and check_onchain_tx has already derived keys of the same length for the outputs",
+    ("RootHandler::do_handle", "sign_withdrawal", "call:with_channel"):
+        "SignAnchorspend: the same channel id was looked up successfully before sign_withdrawal, and the closure's "
+        "only failure is an internal signing error on an input index found in the same PSBT; it does not depend on "
+        "the request",
+}
+
+
+def _short_fn(name):
+    n = name.split("::{closure")[0]
+    if n.startswith("<") and " as " in n:
+        ty = n[1:].split(" as ")[0].rsplit("::", 1)[-1]
+        return ty + "::" + n.rsplit("::", 1)[-1]
+    parts = n.split("::")
+    return "::".join(parts[-2:])
+
+
+def r104(ctx):
+    ctx.rule("R10.4", "protocol layer: no state-changing core call is followed by a refusal of the same request "
+                      "(other than the call's own failure, which the callee's own rule instance covers)")
+    eff = effects.Effects(ctx, CLASSES)
+    bodies = [b for b in ctx.prog.bodies.values() if b.d.krate == "vls_protocol_signer" and not R.is_test_util(b.name)]
+    nsites = 0
+    nfn = 0
+    for b in sorted(bodies, key=lambda x: x.name):
+        sites = list(eff.sites(b))
+        if not sites:
+            continue
+        nfn += 1
+        nsites += len(sites)
+        fv = fnview(ctx, b)
+        pairs = effects.e5_pairs(ctx, eff, b, is_persist)
+        bad = {}
+        fn = _short_fn(b.name)
+        for (bi, cs, desc, ln), x in pairs:
+            tag = site_tag(desc)
+            cause = effects.exit_cause(fv, x)
+            t = b.term(bi)
+            if t.kind == "call" and desc.startswith("call "):
+                own_err = fv.result_edges(bi, t.call, "err")
+                if x["block"] == bi or (own_err and x["block"] not in fv.reach(0, cut_edges=own_err)):
+                    continue   # the call's own failure: decided where the callee is analysed (R10.1 / callee's R10.4 row)
+                if "{closure" in desc:
+                    # a closure handed to with_channel & co: name the state-changing calls inside it
+                    inner = set()
+                    for cb in eff.callees(t.call, b):
+                        if "{closure" in cb.name:
+                            inner |= {site_tag(d2) for (_, _, d2, _) in eff.sites(cb)}
+                    if inner:
+                        tag = "+".join(sorted(inner))
+            exc = EXCEPTIONS4.get((fn, tag, cause))
+            if exc:
+                ctx.sample("R10.4", f"{fn}/{tag}/{cause}", f"{b.file}:{ln}", "exception: " + exc)
+                continue
+            bad.setdefault((tag, tuple(sorted(cs)), desc, ln, cause), []).append(x["line"])
+        if not bad:
+            ctx.ob("R10.4", True, f"{b.name}/atomic", "", where=f"{b.file}:{b.line}",
+                   sample=f"{len(sites)} state-changing calls, none followed by a refusal of the request")
+        for (tag, cs, desc, ln, cause), xl in bad.items():
+            ctx.ob("R10.4", False, f"{fn}/{tag}/then-refusal/{cause}",
+                   f"`{b.name}` changes {list(cs)} ({desc}, line {ln}) and can still refuse the request afterwards "
+                   f"({cause}; error exits at lines {sorted(set(xl))[:5]}): the refused request is not side-effect free",
+                   where=f"{b.file}:{ln}")
+    ctx.floor("R10.4", "protocol-layer functions with state-changing calls", nfn, 20)
+    ctx.floor("R10.4", "state-changing calls in the protocol layer", nsites, 40)
